@@ -8,6 +8,7 @@ import json
 import os
 
 from .. import common as C
+from . import c17m
 
 PROPS = ["theories/Props/C17.v", "theories/Inst/C17i.v"]
 
@@ -303,6 +304,7 @@ def run(ctx):
     ctx.notes.append("end-to-end delivery through MakeRequest (reconnect to the new DC, request repeated, other calls in flight) "
                      "needs the in-process reference server and is covered by the client work package; here the real "
                      "tryToProcessErr is driven on an unconnected client whose DC addresses cannot be dialled")
+    mcov = c17m.stage(ctx)   # end-to-end half against the in-process server
     cov = C.proof_coverage(
         pr, "make -f Makefile.coq theories/Props/C17.vo theories/Inst/C17i.vo (coqc 8.16.1) in /verif/coq",
         ["gen/ErrTables.v regenerated each run from specificErrors / errorMessages / defaultDCList through the add-only "
@@ -332,6 +334,7 @@ def run(ctx):
          "projection": "panic or not; Message; AdditionalInfo nil / int value / string; Code; Description bytes; for migration: "
                        "class (error itself / error wrapping it / address switched) and the client's address afterwards; panic texts, "
                        "error strings and wrap chains are not compared"})
+    cov.update(mcov)
     return C.finish(ctx, "proof", cov, [
         "Go int is 64 bits",
         "fmt.Sprintf and strconv.Atoi behave as the Gallina re-implementations on the subset used (checked by the correspondence, not proved)",
